@@ -151,6 +151,10 @@ def apply_set(tree, positions, new_typed):
         if node.kind != "s":
             raise ValueError("set on a non-scalar position")
         node.value = new_typed
+        if new_typed == ("null", None):
+            # YAML data cannot carry an anchor on a null (ruamel represents
+            # null as Python None): every alias holds null, the name is gone
+            node.anchor = None
 
 
 def apply_delete(tree, positions):
